@@ -32,6 +32,11 @@ fn main() {
     unsafe {
         rusqlite::ffi::sqlite3_config(rusqlite::ffi::SQLITE_CONFIG_MEMSTATUS, 0);
     }
+    // File-backed wallets (two-connection experiments) are NamedTempFiles: keep them on tmpfs, where
+    // the journal's fsyncs cost nothing. Crash consistency of the file system is not a subject here.
+    if std::path::Path::new("/dev/shm").is_dir() && std::env::var_os("VERIF_KEEP_TMPDIR").is_none() {
+        std::env::set_var("TMPDIR", "/dev/shm");
+    }
     let args = Args::parse();
     if args.prop == "PROFILE" {
         use std::time::Instant;
